@@ -36,13 +36,27 @@ to its division-free characterisation (`roundShift_isRounded`).
   double) is exact — precisely the complement of the classes
   `C09.ties_up_float_bias_in_source_precision` / `C09.nearest_long_double_bias_rounds`, whose witnesses
   are refuted in `ties_up_float_refuted`, `nearest_long_double_refuted`.
-* **partial**: `FloatNearestCorrect` (float/double sources are always correctly rounded under
-  nearest, because the long double sum is exact or rounds harmlessly) is stated as a `def … : Prop`
-  only; what is missing is the monotonicity of `Fmt.add` needed for `|x| < 2^-11`, where the sum does
-  round.  Floating → scaled conversions are covered by refutations only
-  (`neg_inf_float_to_scaled_refuted`, `ties_up_float_to_scaled_refuted`, `float_to_scaled_bias_refuted`):
-  every non-native mode has an open defect class there, and the remaining statement needs the
-  exactness of `power_value<Float>` by repeated squaring, not proved here.
+* `float_nearest_correct` (the statement `FloatNearestCorrect`) — nearest is correctly rounded for
+  **every** canonical finite `float` / `double` value and every destination width
+  (`float_nearest_narrow_source`: any format with at most 53 significand bits inside the long double
+  exponent range).  The `long double` sum `x ± .5L` is one rounding of `(m 2^j + 2^(k-1)) / 2^k`
+  (`biased_roundND`); it is exact when it has at most 64 significant bits, rounds back to the even
+  integer `x` for `|x| ≥ 2^63`, and stays inside `[0.5, 0.5 + 2^-11]` for `|x| < 2^-12`
+  (`roundND_bias_core`), so the integer part never changes.
+
+## floating point → scaled (`floatToScaled`, radix 2)
+
+* `power_value_float_exact` — `power_value<Float, e, 2>()` (repeated squaring, reciprocal for `e < 0`)
+  is exactly `2^e` whenever `2^e` and `2^|e|` are normal numbers of the format.
+* `float_to_scaled_native_truncates` (the statement `FloatToScaledNativeFull`) — the native conversion
+  is the truncation of the exact `x · 2^(-eD)` for every significand of the format whose product does
+  not overflow (`ScaleFits`); products in the subnormal range may round but stay below one unit.
+* `float_to_scaled_neg_inf_partial`, `float_to_scaled_ties_up_partial`,
+  `float_to_scaled_nearest_partial` — the three rounding tags are correctly rounded on the complements
+  of the open classes `C09.neg_inf_float_to_scaled_truncates` (non-negative input or a multiple of the
+  resolution), `C09.ties_up_float_to_scaled_truncates_after_bias` (`x + half ≥ 0` or a multiple) and
+  `C09.float_to_scaled_bias_rounds` (the biased sum is exact); the classes themselves are refuted in
+  `neg_inf_float_to_scaled_refuted`, `ties_up_float_to_scaled_refuted`, `float_to_scaled_bias_refuted`.
 -/
 namespace Cnl.C09
 open Cnl Cnl.Spec Cnl.Rounding Cnl.RoundCvt Cnl.RoundCvtP
@@ -245,12 +259,37 @@ theorem float_nearest_of_exact_bias (f : Fmt) (D : IntTy) (s : Bool) (m : Nat) (
   simp only [intoRange, hfit, ite_true]
 
 /-- the full statement for `float` and `double` sources: every value is correctly rounded (the long
-double sum is exact, or rounds harmlessly for `|x| < 2^-11`).  Not proved here: it needs the
-monotonicity of `Fmt.add` for tiny `x`; `float_nearest_of_exact_bias` covers the exact sums. -/
+double sum is exact, or rounds harmlessly for `|x| < 2^-12` and `|x| ≥ 2^63`); proved below as
+`float_nearest_correct`. -/
 def FloatNearestCorrect : Prop :=
   ∀ (f : Fmt), f = binary32 ∨ f = binary64 → ∀ (D : IntTy), 1 ≤ D.bits → ∀ (s : Bool) (m : Nat) (e : Int),
     f.Canonical (.fin s m e) = true → D.InRange (roundDyadic .nearestAway (sval s m) e) →
     floatToInt .nrst f D (.fin s m e) = .ok (roundDyadic .nearestAway (sval s m) e)
+
+/-- nearest: every canonical finite value of a format with at most 53 significand bits inside the
+long double exponent range is correctly rounded, for every destination in which the result fits -/
+theorem float_nearest_narrow_source (f : Fmt) (hn : Narrow f) (D : IntTy) (s : Bool) (m : Nat) (e : Int)
+    (hx : f.Canonical (.fin s m e) = true) (hfit : D.InRange (roundDyadic .nearestAway (sval s m) e)) :
+    floatToInt .nrst f D (.fin s m e) = .ok (roundDyadic .nearestAway (sval s m) e) :=
+  float_nrst_narrow f hn D s m e hx hfit
+
+/-- nearest, `float` and `double` sources: every finite value is correctly rounded (ties away from
+zero) whenever the rounded value is representable in the destination -/
+theorem float_nearest_correct : FloatNearestCorrect := by
+  intro f hf D _ s m e hc hfit
+  have hn : Narrow f := by
+    rcases hf with rfl | rfl
+    · exact narrow_binary32
+    · exact narrow_binary64
+  exact float_nrst_narrow f hn D s m e hc hfit
+
+/-- the widened sum of the nearest conversion is a single rounding of `(m 2^j + 2^(k-1)) / 2^k`, and
+that rounding preserves the integer part -/
+theorem float_nearest_bias_harmless (neg : Bool) (m j k : Nat) (hm : m < 2^53) (hk : 64 ≤ k)
+    (hhi : (m.log2 : Int) + j - k ≤ 16383) :
+    ∃ m' e', x87ext.roundND neg (m * 2^j + 2^(k-1)) (2^k) = .fin neg m' e' ∧ -(k:Int) ≤ e' ∧
+      (m' * 2^(e' + k).toNat) / 2^k = (m * 2^j + 2^(k-1)) / 2^k :=
+  roundND_bias_core neg m j k hm hk hhi
 
 /-! ### the floating-point defect classes (witnesses of known_findings.json) -/
 
@@ -281,6 +320,70 @@ adding `2^-9` in `float` rounds up to one unit -/
 theorem float_to_scaled_bias_refuted :
     floatToScaled .nrst binary32 i32 (-8) (.fin false (2^24-1) (-33)) = .ok 1
       ∧ roundDyadic .nearestAway (sval false (2^24-1)) (-33 - (-8)) = 0 ∧ i32.InRange 0 := by decide +kernel
+
+/-! ### floating point → scaled: what does hold -/
+
+/-- `power_value<Float, e, 2>()` — repeated squaring in the floating type, and `1 / 2^|e|` for
+negative `e` — is exactly `2^e` whenever `2^e` and `2^|e|` are normal numbers of the format -/
+theorem power_value_float_exact (f : Fmt) (hf : FmtOk f) (e : Int) (hmin : f.emin ≤ e) (hmax : e ≤ f.emax)
+    (hneg : -e ≤ f.emax) :
+    ScaledFloat.powerValueF f 2 e = .fin false (2^(f.prec - 1)) (e - ((f.prec : Int) - 1)) :=
+  powerValueF_two f hf e hmin hmax hneg
+
+/-- the full statement of the native conversion: every finite value with a significand of the format
+whose scaled product does not overflow the format — also those whose product is subnormal, where the
+multiplication may round but stays below one unit; proved below -/
+def FloatToScaledNativeFull : Prop :=
+  ∀ (f : Fmt), FmtOk f → f.emin < 0 → ∀ (D : IntTy) (eD : Int), PowF f eD → ∀ (s : Bool) (m : Nat) (e : Int),
+    ScaleFits f eD m e →
+    floatToScaled .nat f D eD (.fin s m e)
+      = if D.InRange (roundDyadic .truncate (sval s m) (e - eD))
+        then .ok (roundDyadic .truncate (sval s m) (e - eD)) else .ub .floatToIntRange
+
+/-- native tag: `static_cast<rep>(x * power_value<Float, -eD, 2>())` is the truncation toward zero of
+the exact `x · 2^(-eD)`, and undefined exactly when that does not fit the representation type -/
+theorem float_to_scaled_native_truncates : FloatToScaledNativeFull := by
+  intro f hf hneg D eD hp s m e hx
+  exact fromFloat_fits f hf hneg D eD hp s m e hx
+
+/-- neg_inf, complement of class `C09.neg_inf_float_to_scaled_truncates`: for a non-negative input,
+or one that is a multiple of the destination resolution, the result is the floor -/
+theorem float_to_scaled_neg_inf_partial (f : Fmt) (hf : FmtOk f) (hneg : f.emin < 0) (D : IntTy) (eD : Int)
+    (hp : PowF f eD) (s : Bool) (m : Nat) (e : Int) (hx : ScaleFits f eD m e)
+    (hnd : TruncIsFloor (sval s m) (e - eD))
+    (hfit : D.InRange (roundDyadic .floor (sval s m) (e - eD))) :
+    floatToScaled .ninf f D eD (.fin s m e) = .ok (roundDyadic .floor (sval s m) (e - eD)) := by
+  rw [← trunc_eq_floor hnd] at hfit ⊢
+  have := fromFloat_fits f hf hneg D eD hp s m e hx
+  simp only [floatToScaled, this, intoRange, hfit, ite_true]
+
+/-- tie_to_pos_inf, complement of the classes `C09.ties_up_float_to_scaled_truncates_after_bias` and
+`C09.float_to_scaled_bias_rounds`: when the sum `x + half` is exact in the source format and is
+non-negative (or a multiple of the resolution), the result is `⌊x/2^eD + 1/2⌋` -/
+theorem float_to_scaled_ties_up_partial (f : Fmt) (hf : FmtOk f) (hneg : f.emin < 0) (D : IntTy) (eD : Int)
+    (hp : PowF f eD) (s : Bool) (m : Nat) (e : Int) (s' : Bool) (m' : Nat) (e' : Int)
+    (hsum : f.add (.fin s m e) (ScaledFloat.powerValueF f 2 (eD - 1)) = .fin s' m' e')
+    (hexact : ExactBias s m (e - eD) s' m' (e' - eD) 1)
+    (hx : ScaleFits f eD m' e') (hnd : TruncIsFloor (sval s' m') (e' - eD))
+    (hfit : D.InRange (roundDyadic .nearestUp (sval s m) (e - eD))) :
+    floatToScaled .tpi f D eD (.fin s m e) = .ok (roundDyadic .nearestUp (sval s m) (e - eD)) := by
+  rw [← floor_exactBias hexact, ← trunc_eq_floor hnd] at hfit ⊢
+  have := fromFloat_fits f hf hneg D eD hp s' m' e' hx
+  simp only [floatToScaled, hsum, this, intoRange, hfit, ite_true]
+
+/-- nearest, complement of class `C09.float_to_scaled_bias_rounds`: whenever the sum `x ± half` is
+exact in the source format the result is rounded to nearest, ties away from zero -/
+theorem float_to_scaled_nearest_partial (f : Fmt) (hf : FmtOk f) (hneg : f.emin < 0) (D : IntTy) (eD : Int)
+    (hp : PowF f eD) (s : Bool) (m : Nat) (e : Int) (s' : Bool) (m' : Nat) (e' : Int)
+    (hsum : (if 0 ≤ sval s m then f.add (.fin s m e) (ScaledFloat.powerValueF f 2 (eD - 1))
+             else f.sub (.fin s m e) (ScaledFloat.powerValueF f 2 (eD - 1))) = .fin s' m' e')
+    (hexact : ExactBias s m (e - eD) s' m' (e' - eD) (if 0 ≤ sval s m then 1 else -1))
+    (hx : ScaleFits f eD m' e')
+    (hfit : D.InRange (roundDyadic .nearestAway (sval s m) (e - eD))) :
+    floatToScaled .nrst f D eD (.fin s m e) = .ok (roundDyadic .nearestAway (sval s m) (e - eD)) := by
+  rw [← trunc_exactBias hexact, truncInt_eq_roundDyadic] at hfit ⊢
+  rw [floatToScaled_nrst_eq, hsum, fromFloat_fits f hf hneg D eD hp s' m' e' hx]
+  simp only [intoRange, hfit, ite_true]
 
 /-! ### non-vacuity (floating sources): ±2.5, ±2.75, ±0.5 in `float`, `double`, `long double` -/
 
@@ -314,5 +417,47 @@ example : binary32.add (.fin false (2^24-1) (-25)) (binary32.ofDyadic false 1 (-
     ∧ ¬ ExactBias false (2^24-1) (-25) false (2^23) (-23) 1 := by decide +kernel
 example : x87ext.add (x87ext.cvt (.fin false (2^64-1) (-65))) (x87ext.ofDyadic false 1 (-1)) = .fin false (2^63) (-63)
     ∧ ¬ ExactBias false (2^64-1) (-65) false (2^63) (-63) 1 := by decide +kernel
+
+-- nearest on `float` / `double` values outside the exact-bias regime: the largest double below 2^-20,
+-- a float above 2^63 into `uint64_t`, the largest float below one half
+example : floatToInt .nrst binary64 i64 (.fin false (2^53-1) (-74)) = .ok 0
+    ∧ floatToInt .nrst binary32 u64 (.fin false (2^24-1) 40) = .ok 18446742974197923840
+    ∧ floatToInt .nrst binary32 i8 (.fin true (2^24-1) (-25)) = .ok 0
+    ∧ binary64.Canonical (.fin false (2^53-1) (-74)) = true ∧ binary32.Canonical (.fin false (2^24-1) 40) = true
+    ∧ u64.InRange (roundDyadic .nearestAway (sval false (2^24-1)) 40) := by decide +kernel
+example : Narrow binary32 ∧ Narrow binary64 ∧ ¬ Narrow x87ext := by decide
+-- float → scaled at resolution 2^-4: ±2.53125 = ±40.5 units, -2.5 = -40 units
+example : ScaledFloat.powerValueF binary32 2 (-5) = .fin false (2^23) (-28)
+    ∧ ScaledFloat.powerValueF binary64 2 1000 = .fin false (2^52) 948 := by decide +kernel
+example : FmtOk binary32 ∧ binary32.emin < 0 ∧ PowF binary32 (-4) ∧ ScaleFits binary32 (-4) (81 * 2^17) (-22) ∧ ScaleFits binary32 (-4) (5 * 2^21) (-22)
+    ∧ TruncIsFloor (sval false (81 * 2^17)) (-22 - -4) ∧ TruncIsFloor (sval true (5 * 2^21)) (-22 - -4)
+    ∧ ¬ TruncIsFloor (sval true (81 * 2^17)) (-22 - -4)
+    ∧ floatToScaled .ninf binary32 i16 (-4) (.fin false (81 * 2^17) (-22)) = .ok 40
+    ∧ floatToScaled .ninf binary32 i16 (-4) (.fin true (5 * 2^21) (-22)) = .ok (-40)
+    ∧ floatToScaled .nat binary32 i16 (-4) (.fin true (81 * 2^17) (-22)) = .ok (-40) := by decide +kernel
+example : binary32.add (.fin false (81 * 2^17) (-22)) (ScaledFloat.powerValueF binary32 2 (-4 - 1)) = .fin false 10747904 (-22)
+    ∧ ExactBias false (81 * 2^17) (-22 - -4) false 10747904 (-22 - -4) 1 ∧ ScaleFits binary32 (-4) 10747904 (-22)
+    ∧ TruncIsFloor (sval false 10747904) (-22 - -4)
+    ∧ floatToScaled .tpi binary32 i16 (-4) (.fin false (81 * 2^17) (-22)) = .ok 41
+    ∧ roundDyadic .nearestUp (sval false (81 * 2^17)) (-22 - -4) = 41 := by decide +kernel
+-- -40.5 units: the tie goes up to -40 (the biased sum -40 is a multiple of the resolution) …
+example : binary32.add (.fin true (81 * 2^17) (-22)) (ScaledFloat.powerValueF binary32 2 (-4 - 1)) = .fin true 10485760 (-22)
+    ∧ ExactBias true (81 * 2^17) (-22 - -4) true 10485760 (-22 - -4) 1 ∧ TruncIsFloor (sval true 10485760) (-22 - -4)
+    ∧ floatToScaled .tpi binary32 i16 (-4) (.fin true (81 * 2^17) (-22)) = .ok (-40) := by decide +kernel
+-- … and away from zero to -41 under nearest
+example : binary32.sub (.fin true (81 * 2^17) (-22)) (ScaledFloat.powerValueF binary32 2 (-4 - 1)) = .fin true 10747904 (-22)
+    ∧ ExactBias true (81 * 2^17) (-22 - -4) true 10747904 (-22 - -4) (-1)
+    ∧ floatToScaled .nrst binary32 i16 (-4) (.fin true (81 * 2^17) (-22)) = .ok (-41)
+    ∧ roundDyadic .nearestAway (sval true (81 * 2^17)) (-22 - -4) = -41 := by decide +kernel
+-- the witnesses of the open classes fail the hypotheses: a negative non-multiple, an inexact bias
+example : ¬ TruncIsFloor (sval true (2^24-1)) (-26 - -4)
+    ∧ binary32.add (.fin true (2^23) (-22)) (ScaledFloat.powerValueF binary32 2 (-1 - 1)) = .fin true 14680064 (-23)
+    ∧ ¬ TruncIsFloor (sval true 14680064) (-23 - -1)
+    ∧ binary32.add (.fin false (2^24-1) (-33)) (ScaledFloat.powerValueF binary32 2 (-8 - 1)) = .fin false (2^23) (-31)
+    ∧ ¬ ExactBias false (2^24-1) (-33 - -8) false (2^23) (-31 - -8) 1 := by decide +kernel
+-- a product in the subnormal range (the multiplication rounds): 0x1.fffffep-126 at resolution 2^20
+example : ScaleFits binary32 20 (2^24-1) (-149) ∧ PowF binary32 20 ∧ ¬ ScaleOk binary32 20 (2^24-1) (-149)
+    ∧ floatToScaled .nat binary32 i32 20 (.fin true (2^24-1) (-149)) = .ok 0
+    ∧ roundDyadic .truncate (sval true (2^24-1)) (-149 - 20) = 0 := by decide +kernel
 
 end Cnl.C09
